@@ -241,6 +241,58 @@ pub fn run(args: &Args) {
         }
     }
 
+    // ---------------- sentence splitters of several threads over the shared dictionary's lexicon, each with its own window limit
+    if args.replay.is_none() {
+        use sudachi::sentence_splitter::{SentenceSplitter, SplitSentences};
+        let d: &JapaneseDictionary = &dict_user;
+        // the first splitter of the process is an ordinary one
+        let first: Vec<String> = SentenceSplitter::new().with_checker(d.lexicon()).split("東京都に行った。京都。").map(|(_, s)| s.to_string()).collect();
+        let long_a = format!("{}。い", "あ".repeat(250_000));
+        let long_b = format!("京都。{}！東京都", "ア".repeat(180_000));
+        let texts: Vec<(String, Vec<usize>)> = vec![
+            ("東京都に行った。京都。".to_string(), vec![24, 33]),
+            (long_a.clone(), vec![250_001 * 3, long_a.len()]),
+            (long_b.clone(), vec![9, 9 + 180_001 * 3, long_b.len()]),
+        ];
+        let limits = [400_000usize, 300_000, 4096, 260_000];
+        let results: Arc<Mutex<Vec<(usize, usize, Result<Vec<usize>, String>)>>> = Arc::new(Mutex::new(vec![]));
+        std::thread::scope(|sc| {
+            for (ti, lim) in limits.iter().enumerate() {
+                let results = results.clone();
+                let texts = &texts;
+                sc.spawn(move || {
+                    quiet_panics_thread();
+                    for (k, (t, _)) in texts.iter().enumerate() {
+                        let r = catch(|| {
+                            let sp = SentenceSplitter::with_limit(*lim).with_checker(d.lexicon());
+                            sp.split(t).map(|(r, _)| r.end).collect::<Vec<usize>>()
+                        });
+                        results.lock().unwrap().push((ti, k, r));
+                    }
+                });
+            }
+        });
+        let id = sink.case_rust_only(json!({"kind": "sentence-splitter-threads", "limits": limits, "texts": ["short", "250000 x あ + 。い", "京都。+ 180000 x ア + ！東京都"]}), true);
+        sink.tag("sentence-splitter-threads");
+        if first != vec!["東京都に行った。".to_string(), "京都。".to_string()] {
+            sink.fail(id, &format!("the first splitter of the process split the probe into {:?}", first), "");
+        }
+        for (ti, k, r) in results.lock().unwrap().iter() {
+            match r {
+                Err(p) => sink.fail(id, &format!("sentence splitter with window {} in thread {} panicked on text {} ({})", limits[*ti], ti, k, p), ""),
+                Ok(ends) => {
+                    // with a window that holds the whole text the sentences end exactly after the terminators; always: contiguous cover
+                    let (t, want) = &texts[*k];
+                    if ends.last() != Some(&t.len()) || ends.windows(2).any(|w| w[0] >= w[1]) {
+                        sink.fail(id, &format!("sentence splitter with window {} in thread {}: sentence ends {:?} do not cover text {} of {} bytes", limits[*ti], ti, &ends[..ends.len().min(6)], k, t.len()), "");
+                    } else if limits[*ti] > t.chars().count() && ends != want {
+                        sink.fail(id, &format!("sentence splitter with window {} in thread {}: sentence ends {:?}, the single-threaded result is {:?}", limits[*ti], ti, &ends[..ends.len().min(6)], want), "");
+                    }
+                }
+            }
+        }
+    }
+
     // ---------------- Python threads sharing one Dictionary
     let pypkg = std::env::var("VERIF_PYPKG").unwrap_or_default();
     let root = std::env::var("VERIF_ROOT").unwrap_or_else(|_| ".".into());
